@@ -32,7 +32,7 @@ def build(ctx, tier, seed):
                               'kind': 'get', 'key': {'format': f.name, 'field': fld['name'], 'accessor': a['get']}})
             combos = [(b, v & ((1 << vw) - 1)) for b in bufs[:3] + bufs[-nr:] for v in F.values_for(rng, fld['width'], 1)[:6]]
             # prior field contents related to the value written (same value, same low / high half, one bit off)
-            for v in [rng.bits(min(fld['width'], vw)), rng.bits(min(fld['width'], 32)), (1 << min(fld['width'], vw)) - 1]:
+            for v in [rng.bits(min(fld['width'], vw)), rng.bits(min(fld['width'], 32)), (1 << min(fld['width'], vw)) - 1, rng.bits(max(1, fld['width'] // 2)), 0]:
                 combos += [(b, v) for b in F.related_priors(rng, f.hdr + 3, fld['first'], fld['width'], v)]
             for b, v in combos:
                 hb = F.hexbuf(b)
